@@ -132,3 +132,4 @@ import Kanal.Refine.Raw
 import Kanal.Refine.Mach
 import Kanal.Refine.Last
 import Kanal.Refine.Examples
+import Kanal.Refine.Movers
